@@ -3,7 +3,7 @@
 (* call (or one encode/decode pair) of the real library; every clause of  *)
 (* the specification is evaluated on every event; a failed clause is      *)
 (* recorded (REJ line) and validation continues.                          *)
-EXTENDS HDenote, TLC, Json
+EXTENDS HDenote, HApiRef, TLC, Json
 
 Trace == ndJsonDeserialize("trace.ndjson")
 
@@ -126,6 +126,8 @@ HistCodes(e) ==
           THEN {<<c[1], i>> : c \in DenotesCodes([n |-> e.probes[i].v.n, T |-> e.probes[i].T], e.probes[i].eu, e.probes[i].v.r)}
           ELSE {})
     : i \in 1..Len(e.probes)}
+  \* the sizes of the instance's tables after every operation agree with the life-cycle model (hooked builds)
+  \cup (IF "hooked" \in DOMAIN e /\ e.hooked = 1 THEN StateCodes(e.kind, e.ops, e.states) ELSE {})
   \cup (IF e.va # e.vb THEN {<<"C11.mutatedValue", 0>>} ELSE {})
   \cup (IF e.ba # e.bb THEN {<<"C11.mutatedBytes", 0>>} ELSE {})
   \cup (IF e.ma # e.mb THEN {<<"C11.mutatedMap", 0>>} ELSE {})
